@@ -1,9 +1,9 @@
 (* Properties/C17.v — how a dataclass is written does not change its command line.
    Only statements closed by `exact`, each followed by Print Assumptions.  Which runtime path each one covers:
      C17_eval_render / C17_denote_render : every path (what Python builds from each spelling; what the spelling means)
-     C17_norm_*      : `from __future__ import annotations` + get_type_hints succeeds + top-level types.UnionType
+     C17_norm        : `from __future__ import annotations` + get_type_hints succeeds + top-level types.UnionType
                        (get_field_type_from_annotations -> _replace_UnionType_with_typing_Union), the normal path on 3.10+
-     C17_resolve_* / C17_renderings_* : DataclassWrapper.__init__ / FieldWrapper.type for all four styles
+     C17_resolve / C17_renderings : DataclassWrapper.__init__ / FieldWrapper.type for all four styles
      C17_rewriter_*  : _get_old_style_annotation: the fallback of get_field_type_from_annotations (get_type_hints raised
                        TypeError) and evaluate_string_annotation (serialization helpers); never on the normal parse path
      C17_flatten_*   : dataclasses' field collection + _get_dataclass_fields + DataclassWrapper's filters *)
@@ -26,35 +26,26 @@ Print Assumptions C17_denote_render.
 Definition norm_statement (c : cty) : Prop :=
   norm_gen (rt Sp604 c) = Ok (rt SpBuiltin c) /\ canon (rt SpBuiltin c) = canon (rt SpTyping c).
 
-(* full strength: false of the faithful model — Optional[Tuple[int, ...]] written `tuple[int, ...] | None` *)
-Theorem C17_norm_refuted : exists c, wf_cty c = true /\ ~ norm_statement c.
+(* full strength, Tuple[X, ...] included: holds since the normaliser lets the Ellipsis argument through (the repair
+   of the defect this check reported: postponed `a: tuple[int, ...] | None` raised NotImplementedError at set-up; the
+   witness stays in corpus/C17 and in the generated stream, and NORM_HANDLES_ELLIPSIS_GEN is the regenerated fact) *)
+Theorem C17_norm : forall c, wf_cty c = true -> norm_statement c.
 Proof.
-  exists (CUnion [CTupleVar (CAtom "int"); CNone]). split; [reflexivity|].
-  intros [H _]. vm_compute in H. discriminate H.
+  intros c Hw. split; [now apply norm_rt604|]. now rewrite !canon_rt.
 Qed.
-Print Assumptions C17_norm_refuted.
+Print Assumptions C17_norm.
 
-Theorem C17_norm_partial : forall c, wf_cty c = true -> has_variadic c = false -> norm_statement c.
-Proof.
-  intros c Hw Hv. split; [now apply norm_rt604|]. now rewrite !canon_rt.
-Qed.
-Print Assumptions C17_norm_partial.
+Theorem C17_norm_handles_ellipsis : NORM_HANDLES_ELLIPSIS_GEN = true /\ norm_gen REllipsis = Ok REllipsis.
+Proof. split; [exact ellipsis_handled|exact norm_dots]. Qed.
+Print Assumptions C17_norm_handles_ellipsis.
 
 (* ---------- the resolution pipeline of DataclassWrapper / FieldWrapper.type ---------- *)
 Definition resolve_statement (sp : spelling) (postponed initvar : bool) (c : cty) : Prop :=
   exists r, resolve_gen postponed initvar (render sp c) = Ok r /\ canon r = c.
 
-Theorem C17_resolve_refuted : exists sp postponed initvar c, wf_cty c = true /\ ~ resolve_statement sp postponed initvar c.
-Proof.
-  exists Sp604, true, false, (CUnion [CTupleVar (CAtom "int"); CNone]). split; [reflexivity|].
-  intros [r [H _]]. vm_compute in H. discriminate H.
-Qed.
-Print Assumptions C17_resolve_refuted.
-
-Theorem C17_resolve_partial : forall sp postponed initvar c,
-  wf_cty c = true -> resolve_safe sp postponed initvar c = true -> resolve_statement sp postponed initvar c.
+Theorem C17_resolve : forall sp postponed initvar c, wf_cty c = true -> resolve_statement sp postponed initvar c.
 Proof. exact resolve_render. Qed.
-Print Assumptions C17_resolve_partial.
+Print Assumptions C17_resolve.
 
 (* ---------- (b) the textual rewriter ---------- *)
 Definition rewriter_statement (t : texp) : Prop :=
@@ -106,31 +97,23 @@ Print Assumptions C17_flatten_split.
 Definition renderings_statement (sp : spelling) (postponed : bool) (chain : list (list (string * fdecl))) : Prop :=
   field_types_gen sp postponed (chain_fields chain) = Ok (spec_cli_fields (spec_flat chain)).
 
-Theorem C17_renderings_refuted : exists sp postponed chain,
-  forallb (fun kv => wf_cty (f_ty (snd kv))) (chain_fields chain) = true /\ ~ renderings_statement sp postponed chain.
-Proof.
-  exists Sp604, true, [[("a", mkf (CUnion [CTupleVar (CAtom "int"); CNone]) KField true true)]].
-  split; [reflexivity|]. intros H. vm_compute in H. discriminate H.
-Qed.
-Print Assumptions C17_renderings_refuted.
-
-Theorem C17_renderings_partial : forall sp postponed chain,
-  forallb (decl_safe sp postponed) (chain_fields chain) = true -> renderings_statement sp postponed chain.
+Theorem C17_renderings : forall sp postponed chain,
+  forallb decl_wf (chain_fields chain) = true -> renderings_statement sp postponed chain.
 Proof. exact chain_types_ok. Qed.
-Print Assumptions C17_renderings_partial.
+Print Assumptions C17_renderings.
 
 (* ---------- non-vacuity ---------- *)
 Example C17_nonvacuous :
-  let c := CUnion [CList (CUnion [CAtom "int"; CAtom "str"]); CTuple [CAtom "int"; CAtom "E"]; CNone] in
+  let c := CUnion [CList (CUnion [CAtom "int"; CAtom "str"]); CTupleVar (CAtom "E"); CNone] in
   let t := TSub "dict" [TName "str"; TBar [TName "int"; TName "None"]] in
   let chain := [[("a", mkf (CAtom "int") KField true true); ("b", mkf (CAtom "str") KField true true)];
                 [("iv", mkf c KInitVar true true); ("a", mkf c KField true true); ("h", mkf (CAtom "int") KField true false)]] in
-  wf_cty c = true /\ has_variadic c = false
-  /\ unchars (pr (render Sp604 c)) = "list[int | str] | tuple[int, E] | None"%string
-  /\ unchars (pr (render SpTyping c)) = "Optional[Union[List[Union[int, str]], Tuple[int, E]]]"%string
+  wf_cty c = true /\ has_variadic c = true
+  /\ unchars (pr (render Sp604 c)) = "list[int | str] | tuple[E, ...] | None"%string
+  /\ unchars (pr (render SpTyping c)) = "Optional[Union[List[Union[int, str]], Tuple[E, ...]]]"%string
   /\ norm_gen (rt Sp604 c) = Ok (rt SpBuiltin c)
   /\ names_ok t = true /\ shape_ok t = true /\ rw_ok t = true /\ has_bar t = true
   /\ option_map unchars (match old_style_gen (pr t) with Ok s => Some s | Err _ => None end) = Some "dict[str, Union[int, None]]"%string
-  /\ forallb (decl_safe Sp604 true) (chain_fields chain) = true
+  /\ forallb decl_wf (chain_fields chain) = true
   /\ field_types_gen Sp604 true (chain_fields chain) = Ok [("a", c); ("b", CAtom "str"); ("iv", c)].
 Proof. vm_compute. repeat split; reflexivity. Qed.
